@@ -77,3 +77,56 @@ pub fn root_bigint_api(v: &mut minimal_lexical::stackvec::StackVec, s: &[u64], x
     bigint::normalize(v);
     acc
 }
+
+/// The same for the heap-backed vector (feature alloc).
+#[cfg(feature = "alloc")]
+pub fn root_heapvec_api(v: &mut minimal_lexical::heapvec::HeapVec, w: &minimal_lexical::heapvec::HeapVec, s: &[u64], x: u64, n: usize) -> usize {
+    use minimal_lexical::heapvec::HeapVec;
+    use core::ops::{Deref, DerefMut};
+    let mut acc = 0usize;
+    let fresh = HeapVec::new();
+    acc += fresh.len() + fresh.capacity() + fresh.is_empty() as usize;
+    if let Some(t) = HeapVec::try_from(s) {
+        acc += t.len();
+    }
+    acc += v.try_push(x).is_some() as usize;
+    acc += v.pop().is_some() as usize;
+    acc += v.try_extend(s).is_some() as usize;
+    acc += v.try_resize(n, x).is_some() as usize;
+    acc += v.hi64().0 as usize;
+    acc += HeapVec::from_u64(x).len();
+    v.normalize();
+    acc += v.is_normalized() as usize;
+    acc += v.add_small(x).is_some() as usize;
+    acc += v.mul_small(x).is_some() as usize;
+    acc += (*v == *w) as usize;
+    acc += (core::cmp::PartialOrd::partial_cmp(&*v, w) == Some(core::cmp::Ordering::Less)) as usize;
+    acc += (core::cmp::Ord::cmp(&*v, w) == core::cmp::Ordering::Less) as usize;
+    acc += v.deref().len() + v.deref_mut().len();
+    *v *= s;
+    let c = w.clone();
+    acc + c.len()
+}
+
+#[cfg(feature = "alloc")]
+pub fn root_bigint_api(v: &mut minimal_lexical::heapvec::HeapVec, s: &[u64], x: u64, n: usize) -> usize {
+    use minimal_lexical::bigint;
+    let mut acc = 0usize;
+    acc += bigint::small_add(v, x).is_some() as usize;
+    acc += bigint::small_mul(v, x).is_some() as usize;
+    acc += bigint::large_add(v, s).is_some() as usize;
+    acc += bigint::large_mul(v, s).is_some() as usize;
+    acc += bigint::shl(v, n).is_some() as usize;
+    acc += bigint::pow(v, n as u32).is_some() as usize;
+    acc += bigint::bit_length(v) as usize;
+    acc += bigint::is_normalized(v) as usize;
+    acc += (bigint::compare(v, s) == core::cmp::Ordering::Less) as usize;
+    bigint::normalize(v);
+    acc
+}
+
+/// The bit-mask helpers (C18), so that they have instances whether or not the rounding code still calls them.
+pub fn root_mask_api(n: u64) -> u64 {
+    use minimal_lexical::mask;
+    mask::lower_n_mask(n) ^ mask::lower_n_halfway(n) ^ mask::nth_bit(n)
+}
